@@ -2379,6 +2379,60 @@ def rule_siblings(repo):
 
 # ---------------------------------------------------------------------------
 # R-C11-acyclic
+def _check_acyclic_scheduler(r, repo, mm, qual, g):
+    """an acyclic-only scheduler applies check_schedule (the completeness test that raises UpblkCyclicError) to the list
+    it publishes as update_schedule and to the vertex set, on every path, after the last block was scheduled"""
+    pub = set()
+    for n in walk_no_nested(g):
+        if isinstance(n, ast.Assign) and any(isinstance(t, ast.Attribute) and t.attr == 'update_schedule' for t in n.targets):
+            pub |= {t.id for t in n.targets if isinstance(t, ast.Name)}
+            if isinstance(n.value, ast.Name):
+                pub.add(n.value.id)
+    if not pub:
+        raise AnalysisError(f"{qual}: cannot find the list published as update_schedule")
+
+    def is_check(st):
+        if not (isinstance(st, ast.Expr) and isinstance(st.value, ast.Call) and isinstance(st.value.func, ast.Name)):
+            return False
+        res = repo.resolve(mm, st.value.func.id)
+        return bool(res) and isinstance(res[1], ast.FunctionDef) and res[1].name == 'check_schedule' and res[0].rel == SIMPLE
+
+    def extends(st):
+        return any(isinstance(c, ast.Call) and isinstance(c.func, ast.Attribute) and c.func.attr in ('append', 'extend', 'insert')
+                   and norm(c.func.value) in pub for c in ast.walk(st))
+    n_paths = 0
+    bad = None
+    chk = None
+    for events, outcome in Paths(max_iter=1).block(g.body):
+        if outcome not in ('fall', 'return'):
+            continue
+        n_paths += 1
+        r.evaluations += 1
+        stmts = [ev[1] for ev in events if ev[0] == 'stmt']
+        idx = [k for k, st in enumerate(stmts) if is_check(st)]
+        if not idx:
+            bad = "returns without applying check_schedule to its result"
+            break
+        if any(extends(st) for st in stmts[idx[-1] + 1:]):
+            bad = "schedules further blocks after check_schedule has run"
+            break
+        chk = stmts[idx[-1]]
+    if n_paths == 0:
+        raise AnalysisError(f"{qual}: no normal exit path found")
+    if bad is None:
+        args = [norm(a) for a in chk.value.args]
+        vset = assigned_values(g, args[2]) if len(args) > 2 else []
+        if len(args) < 3 or args[1] not in pub or not any('final_upblks' in norm(v) for v in vset):
+            bad = (f"applies {norm(chk)} to something other than (the published schedule {sorted(pub)}, the vertex set derived "
+                   f"from final_upblks)")
+    if bad:
+        r.bad(mm, qual, f"check_schedule(top, {'/'.join(sorted(pub))}, V, ...) before returning",
+              f"this scheduler cannot iterate SCCs and {bad}: for a cyclic block graph the topological sort silently leaves the "
+              f"blocks of the cycle out of update_schedule -- no UpblkCyclicError, the simulation runs without them", g.lineno)
+    else:
+        r.ok(mm, qual, f"{norm(chk)} on every exit path, after the last block is scheduled")
+
+
 def rule_acyclic(repo):
     r = RuleResult('R-C11-acyclic',
                    "the acyclic-only scheduler rejects a cyclic block graph: check_schedule raises UpblkCyclicError exactly "
@@ -2428,33 +2482,40 @@ def rule_acyclic(repo):
         calls_io = [c for s in st.body for c in walk_no_nested(s) if isinstance(c, ast.Call) and isinstance(c.func, ast.Name)
                     and c.func.id in m.functions and
                     any(isinstance(n, (ast.Import, ast.ImportFrom)) for n in ast.walk(m.functions[c.func.id]))]
+        # a helper wrapped in try/except cannot pre-empt the raise
+        def _protected(c):
+            q = parent(c)
+            while q is not None and q is not st:
+                if isinstance(q, ast.Try) and any(h.type is None or norm(h.type) in ('Exception', 'BaseException')
+                                                  for h in q.handlers) and any(inside(c, b) for b in q.body):
+                    return True
+                q = parent(q)
+            return False
+        calls_io = [c for c in calls_io if not _protected(c)]
         if calls_io:
             r.observations.append(
                 f"check_schedule runs {', '.join(sorted({c.func.id for c in calls_io}))}(...) (graphviz import, render with "
                 f"view=True) before `raise UpblkCyclicError`; when that helper fails (graphviz or a desktop opener such as "
                 f"xdg-open missing) its exception replaces the cyclic-dependency error (reproduced: FileNotFoundError "
                 f"'xdg-open' for a 2-block loop under SimpleSchedulePass); upstream keeps the corresponding tests disabled")
-    # call site: after the Kahn loop, on the schedule list and the vertex set
-    for qual in ('SimpleSchedulePass.schedule_intra_cycle',):
-        g = m.get_func(qual)
-        calls = [s for s in g.body if isinstance(s, ast.Expr) and isinstance(s.value, ast.Call)
-                 and norm(s.value.func) == 'check_schedule']
-        whiles = [s for s in g.body if isinstance(s, ast.While)]
-        if len(calls) != 1 or not whiles:
-            r.bad(m, qual, 'check_schedule(...)', "the acyclic-only scheduler does not check its result unconditionally: a "
-                  "cyclic design is scheduled partially", g.lineno)
-            continue
-        c = calls[0]
-        args = [norm(a) for a in c.value.args]
-        appended = {norm(x.func.value) for w in whiles for x in ast.walk(w) if is_method_call(x, 'append')}
-        vset = [v for v in assigned_values(g, args[2])] if len(args) > 2 else []
-        after = g.body.index(c) > max(g.body.index(w) for w in whiles)
-        if len(args) >= 3 and args[1] in appended and after and vset and any('final_upblks' in norm(v) for v in vset):
-            r.ok(m, qual, f"{norm(c)} after the topological sort")
-        else:
-            r.bad(m, qual, norm(c), "check_schedule is not applied to (the list filled by the topological sort, the vertex "
-                  "set) after the sort has finished", c.lineno)
-    _floor(r, 2)
+    # every scheduler that cannot iterate SCCs checks its complete result before it returns
+    cyclic_capable = {(im.rel, id(im.outer)) for im in impls(repo)}
+    found = 0
+    for sub in ('pymtl3/passes/sim', 'pymtl3/passes/mamba'):
+        for rel in repo.py_files(sub):
+            if 'schedule_intra_cycle' not in repo.src(rel):
+                continue
+            mm = repo.mod(rel)
+            for cname in sorted(mm.classes):
+                g = mm.methods(cname).get('schedule_intra_cycle')
+                if g is None or (rel, id(g)) in cyclic_capable:
+                    continue
+                found += 1
+                _check_acyclic_scheduler(r, repo, mm, f"{cname}.schedule_intra_cycle", g)
+    if found < 2:
+        raise AnalysisError(f"R-C11-acyclic: only {found} acyclic-only scheduler(s) discovered (SimpleSchedulePass and "
+                            f"HeuristicTopoPass expected)")
+    _floor(r, 3)
     return r
 
 
@@ -2584,13 +2645,20 @@ def rule_edges_methods(repo):
     return rule_methods(repo)
 
 
+def rule_edges_visitor(repo):
+    """a signal read only inside a slice bound / index expression still feeds the block: it must be recorded as a read or the loop
+    through it is not a loop for the scheduler.  Shared with C02 (R-C02-visitor)."""
+    from rules.c02 import rule_visitor
+    return rule_visitor(repo)
+
+
 def rule_edges_instance_ro(repo):
     from rules.c02 import rule_cache_readonly
     return rule_cache_readonly(repo)
 
 
 RULES = [rule_template, rule_watch, rule_once, rule_cover, rule_siblings, rule_acyclic, rule_metaname, rule_msg,
-         rule_edges_funcs, rule_edges_overlap, rule_edges_pairing, rule_snapshot_clone, rule_edges_instance, rule_edges_instance_ro, rule_edges_methods]
+         rule_edges_funcs, rule_edges_overlap, rule_edges_pairing, rule_snapshot_clone, rule_edges_instance, rule_edges_instance_ro, rule_edges_methods, rule_edges_visitor]
 
 EXPLANATION = (
     "Static analysis of the two cyclic-capable schedulers (DynamicSchedulePass.schedule_intra_cycle, "
@@ -2769,6 +2837,11 @@ MUTANTS = [
     _m('mamba-bound-differs', "    if N > 100:\n", "    if N > 1000:\n", 'R-C11-siblings', file=MAMBA),
     _m('simple-incomplete-schedule-accepted', "if len(schedule) != len(V):", "if len(schedule) > len(V):", 'R-C11-acyclic',
        file=SIMPLE),
+    dict(name='heutopo-result-not-checked', rule='R-C11-acyclic', edits=[
+        dict(file='pymtl3/passes/mamba/HeuristicTopoPass.py', old="\n    check_schedule( top, update_schedule, V, E, InD )\n", new="\n"),
+        dict(file='pymtl3/passes/mamba/HeuristicTopoPass.py', old="import SimpleSchedulePass, check_schedule", new="import SimpleSchedulePass")]),
+    _m('heutopo-checks-before-sorting', "    check_schedule( top, update_schedule, V, E, InD )", "    check_schedule( top, [], set(), E, InD )",
+       'R-C11-acyclic', file='pymtl3/passes/mamba/HeuristicTopoPass.py'),
     _m('simple-result-not-checked', "    check_schedule( top, update_schedule, V, E, InD )", "    pass", 'R-C11-acyclic', file=SIMPLE),
 ]
 
